@@ -37,4 +37,7 @@ def run(ctx, rep):
     builtins.rule_signed_number_text(ctx, rep, "C18-R12")
     builtins.rule_same_function_two_names(ctx, rep, "C18-R13")
     builtins.rule_ulp_of_the_whole_number(ctx, rep, "C18-R15")
+    builtins.rule_rounded_digits_exact(ctx, rep, "C18-R16")
+    optargs.rule_argument_checked_first(ctx, rep, "C18-R17", ("_make_number_method",))
+    operators.rule_fmod_parity(ctx, rep, "C18-R18")
     textparse.rule_host_pattern_end_anchor(ctx, rep, "C18-R14", modules=("context", "values"), only=lambda q: _in_family(q) or q.startswith("values:to_number") or q.startswith("values:parse_float"))
